@@ -1,4 +1,5 @@
 import H4.NBit
+import H4.Gen.Fn.Cnbit
 import H4.Driver.Util
 namespace H4.Driver
 open H4.NBit
@@ -7,17 +8,146 @@ def parseCfg (a b c d e : String) : Option Cfg := do
   let n ← a.toNat?; let s ← b.toNat?; let f ← c.toNat?; let st ← d.toNat?; let l ← e.toNat?
   pure { ntSize := n, signExt := s != 0, fillOne := f != 0, maskOff := st, maskLen := l }
 
+
+/- function-level Tie A cross-run: `HCIcnbit_init` / `HCIcnbit_encode` / `HCIcnbit_decode` as TRANSLATED from cnbit.c by gen/c2lean.py
+    (`H4.Gen.Fn.Cnbit`) are executed beside the hand-written model on the `T nbit` lines; a difference (or `ub` / `oof` / an unexpected
+    FAIL of the translated code) is appended as ` GEN=…` and so shows up as a DIFF against the real C (`H4.Props.C05NBitFn` proves that no
+    such difference exists).  The coder record is carried from call to call as `HCPcnbit_write` / `HCPcnbit_read` do; `Hbitwrite` calls
+    are the pairs appended to `io_out`, `Hbitread` consumes the bit list `io_in` (the bits of the raw element, most significant first). -/
+namespace GenNBit
+open H4.Gen.Fn.Cnbit H4.Gen.Cnbit
+
+/-- the `comp_coder_nbit_info_t` record (the fields the three functions use) -/
+structure Rec where
+  ntSize : Int
+  signExt : Int
+  fillOne : Int
+  maskOff : Int
+  maskLen : Int
+  bufPos : Int := 3
+  bufLen : Int := 9
+  ntPos : Int := 1
+  offset : Int := 77
+  buffer : List Int := List.replicate NBIT_BUF_SIZE 0xBE
+  maskBuf : List Int := List.replicate NBIT_MASK_SIZE 0x5A
+  miOffset : List Int := List.replicate NBIT_MASK_SIZE 0x77777777
+  miLength : List Int := List.replicate NBIT_MASK_SIZE 0x77777777
+  miMask : List Int := List.replicate NBIT_MASK_SIZE 0x77
+
+def b2i (b : Bool) : Int := if b then 1 else 0
+def recOf (c : Cfg) : Rec := { ntSize := c.ntSize, signExt := b2i c.signExt, fillOne := b2i c.fillOne, maskOff := c.maskOff, maskLen := c.maskLen }
+
+/-- `HCIcnbit_init` (translated) on a record holding junk -/
+def init (c : Cfg) : Except String Rec :=
+  let r := recOf c
+  let s := HCIcnbit_init (c.ntSize + 1) r.bufPos r.bufLen r.ntPos r.offset r.maskBuf r.fillOne r.ntSize r.maskOff r.maskLen r.miOffset r.miLength r.miMask 0
+  if s.ub then .error "init-ub" else if s.oof then .error "init-oof" else if s.ret != 0 then .error "init-fail"
+  else .ok { r with bufPos := s.nbit_buf_pos, bufLen := s.nbit_buf_len, ntPos := s.nbit_nt_pos, offset := s.nbit_offset, maskBuf := s.nbit_mask_buf,
+                    miOffset := s.nbit_mask_info_offset, miLength := s.nbit_mask_info_length, miMask := s.nbit_mask_info_mask }
+
+def showTab (n : Nat) (r : Rec) : String :=
+  s!"{showIntList (r.miOffset.take n)};{showIntList (r.miLength.take n)};{showIntList (r.miMask.take n)};{showIntList (r.maskBuf.take n)}"
+
+def modelTab (c : Cfg) : String :=
+  let mi := maskInfos c
+  s!"{showNatList (mi.map (·.offset))};{showNatList (mi.map (·.length))};{showNatList (mi.map (·.mask))};{showNatList (maskBuf c)}"
+
+def wrap (model : String) (r : Except String Unit) : String :=
+  match r with
+  | .ok () => model
+  | .error e => s!"{model} GEN={e}"
+
+/-- `finit`: the tables of the translated `HCIcnbit_init` are the model's; the state fields are reset; the entries above `nt_size` are 0 -/
+def finit (c : Cfg) (model : String) : String := wrap model do
+  let r ← init c
+  if showTab c.ntSize r != model then throw s!"tab:{showTab c.ntSize r}"
+  if r.bufPos != NBIT_BUF_SIZE || r.bufLen != 0 || r.ntPos != 0 || r.offset != 0 then throw "init-state"
+  if (r.miLength.drop c.ntSize).any (· != 0) || (r.miOffset.drop c.ntSize).any (· != 0) || (r.miMask.drop c.ntSize).any (· != 0) then throw "init-tail"
+  if r.miLength.length != NBIT_MASK_SIZE || r.maskBuf.length != NBIT_MASK_SIZE then throw "init-len"
+
+/-- one `HCIcnbit_encode` call (translated); result: record and the `Hbitwrite` pairs of this call -/
+def encCall (r : Rec) (bs : List UInt8) : Except String (Rec × List Int) :=
+  let s := HCIcnbit_encode bs.length r.ntPos r.miLength r.miMask r.miOffset r.ntSize r.offset bs.length (bs.map fun b => (b.toNat : Int)) []
+  if s.ub then .error "enc-ub" else if s.oof then .error "enc-oof" else if s.ret != 0 then .error "enc-fail"
+  else .ok ({ r with ntPos := s.nbit_nt_pos, offset := s.nbit_offset }, s.io_out)
+
+def encSeq : Rec → List UInt8 → List Nat → List (List Int) → Except String (Rec × List Int)
+  | r, _, [], acc => .ok (r, acc.reverse.flatten)
+  | r, bs, n :: ns, acc => do
+    let (r', o) ← encCall r (bs.take n)
+    encSeq r' (bs.drop n) ns (o :: acc)
+
+def pairs (fs : List (Nat × Nat)) : List Int := fs.flatMap fun f => [(f.1 : Int), (f.2 : Int)]
+
+/-- the translated encoder, called with the byte counts `lens`, makes exactly the model's `Hbitwrite` calls -/
+def fenc (c : Cfg) (bs : List UInt8) (lens : List Nat) (model : String) : String := wrap model do
+  let r ← init c
+  let (r', o) ← encSeq r bs lens []
+  let m := encode c 0 (bs.take lens.sum)
+  if o != pairs m.1 then throw "enc-fields"
+  if r'.ntPos != m.2 then throw "enc-ntpos"
+  if r'.offset != lens.sum then throw "enc-offset"
+
+/-- byte counts for the lines that do not say how the data was cut: whole, then 1, 2, 3, 5, 8, 13, … -/
+def cuts : Nat → Nat → Nat → List Nat
+  | 0, _, _ => []
+  | f + 1, k, left => if left = 0 then [] else let n := min left ([1, 2, 3, 5, 0, 8, 13, 700, 1].getD (k % 9) 1); n :: cuts f (k + 1) (left - n)
+
+def enc (c : Cfg) (bs : List UInt8) (model : String) : String :=
+  let a := fenc c bs [bs.length] model
+  if a != model then a else fenc c bs (cuts (bs.length + 9) 0 bs.length) model
+
+def bitsOf (raw : List UInt8) : List Int := raw.flatMap fun b => (List.range 8).map fun i => ((b.toNat >>> (7 - i)) % 2 : Nat)
+
+/-- one `HCIcnbit_decode(n)` call (translated) on the bits `inp` from position 0; result: record, bits consumed, return value, bytes -/
+def decCall (r : Rec) (n : Nat) (inp : List Int) : Except String (Rec × Nat × Int × List Int) :=
+  let s := HCIcnbit_decode (n + 1040) r.maskOff r.ntSize r.bufPos r.bufLen r.buffer r.maskBuf r.signExt r.miLength r.miOffset r.miMask r.fillOne
+    r.offset n (List.replicate n 0xA5) inp 0
+  if s.ub then .error "dec-ub" else if s.oof then .error "dec-oof"
+  else .ok ({ r with bufPos := s.nbit_buf_pos, bufLen := s.nbit_buf_len, buffer := s.nbit_buffer, offset := s.nbit_offset }, s.io_pos.toNat, s.ret, s.buf)
+
+/-- reads and seeks (`HCPcnbit_seek`: `Hbitseek` to the value's first bit, `buf_pos = NBIT_BUF_SIZE`) -/
+def decOps (c : Cfg) (all : List Int) : Rec → List Int → List Op → List (List Int) → Except String (List Int)
+  | _, _, [], acc => .ok acc.reverse.flatten
+  | r, rest, .read n :: ops, acc => do
+    let (r', used, ret, o) ← decCall r n rest
+    if ret != 0 then throw "dec-fail"
+    decOps c all r' (rest.drop used) ops (o :: acc)
+  | r, _, .seek off :: ops, acc =>
+    if off % c.ntSize ≠ 0 then .error "seek" else decOps c all { r with bufPos := NBIT_BUF_SIZE } (all.drop ((off / c.ntSize) * c.maskLen)) ops acc
+
+def hexOut (l : List Int) : String :=
+  if l.all (fun x => decide (0 ≤ x ∧ x < 256)) then toHex (l.map fun x => UInt8.ofNat x.toNat) else "range"
+
+def dec (c : Cfg) (raw : List UInt8) (ops : List Op) (model : String) : String := wrap model do
+  let r ← init c
+  let o ← decOps c (bitsOf raw) r (bitsOf raw) ops []
+  if hexOut o != model then throw "dec-data"
+
+/-- `feof`: the model says whether a refill ran out of bits; without sign extension the C code then returns FAIL -/
+def feof (c : Cfg) (raw : List UInt8) (n : Nat) (model : String) : String := wrap model do
+  let r ← init c
+  let (_, _, ret, _) ← decCall r n (bitsOf raw)
+  if (if ret = 0 then "ok" else "fail") != model then throw s!"eof-ret:{ret}"
+end GenNBit
+
 /-- engine `nbit` (arguments `<nt_size> <sign_ext> <fill_one> <start_bit> <bit_len>` then):
     `enc <hex data>` => raw DFTAG_COMPRESSED bytes of an element written sequentially with the data
     `dec <hex raw> <n|sOFF,...>` => concatenated result of `Hread`s of the given lengths (`sOFF` = `Hseek` to byte OFF)
     `proj <hex data>` => whole element written then read back in one `Hread` (model of the complete path)
-    `spec <hex data>` => the specification `projectAll` (no coder model involved) -/
+    `spec <hex data>` => the specification `projectAll` (no coder model involved)
+    unit level (the static functions of cnbit.c called directly, any `nt_size` up to `NBIT_MASK_SIZE`):
+    `finit` => `mask_info[0..nt_size)` (offsets;lengths;masks) and `mask_buf[0..nt_size)` after `HCIcnbit_init`
+    `fenc <hex data> <n,...>` => raw bytes after `HCIcnbit_encode` calls of these sizes and `Hendbitaccess`
+    `fdec <hex raw> <n,...>` => bytes delivered by `HCIcnbit_decode` calls of these sizes
+    `feof <hex raw> <n>` => `ok` | `fail`: one `HCIcnbit_decode` call that runs out of data (FAIL unless sign-extending)
+    `enc`, `dec`, `finit`, `fenc`, `fdec`, `feof` also run the translated C functions (`GenNBit`) -/
 def stepNBit (args : List String) : String :=
   match args with
   | [op, a, b, c, d, e, x] =>
     match parseCfg a b c d e, parseHex x with
     | some cfg, some bs =>
-      if op == "enc" then toHex (compress cfg bs)
+      if op == "enc" then GenNBit.enc cfg bs (toHex (compress cfg bs))
       else if op == "proj" then toHex ((readBack cfg (compress cfg bs) [bs.length]).flatten)
       else if op == "spec" then toHex (projectAll cfg bs.length bs)
       else "bad-op"
@@ -28,7 +158,25 @@ def stepNBit (args : List String) : String :=
       | 's' :: r => (String.ofList r).toNat?.map Op.seek
       | _ => t.toNat?.map Op.read
     match parseCfg a b c d e, parseHex x, ops with
-    | some cfg, some raw, some ops => toHex ((readScript cfg raw ops).flatten)
+    | some cfg, some raw, some ops => GenNBit.dec cfg raw ops (toHex ((readScript cfg raw ops).flatten))
+    | _, _, _ => "bad-op"
+  | ["finit", a, b, c, d, e] =>
+    match parseCfg a b c d e with
+    | some cfg => GenNBit.finit cfg (GenNBit.modelTab cfg)
+    | none => "bad-op"
+  | ["fenc", a, b, c, d, e, x, l] =>
+    match parseCfg a b c d e, parseHex x, natList l with
+    | some cfg, some bs, some lens => GenNBit.fenc cfg bs lens (toHex (compress cfg bs))
+    | _, _, _ => "bad-op"
+  | ["fdec", a, b, c, d, e, x, l] =>
+    match parseCfg a b c d e, parseHex x, natList l with
+    | some cfg, some raw, some lens => GenNBit.dec cfg raw (lens.map .read) (toHex ((readScript cfg raw (lens.map .read)).flatten))
+    | _, _, _ => "bad-op"
+  | ["feof", a, b, c, d, e, x, l] =>
+    match parseCfg a b c d e, parseHex x, l.toNat? with
+    | some cfg, some raw, some n =>
+      let d := (decode cfg { st := H4.BitIO.startRead raw, buffer := List.replicate H4.Gen.Cnbit.NBIT_BUF_SIZE 0 } n).1
+      GenNBit.feof cfg raw n (if !cfg.signExt && d.fail then "fail" else "ok")
     | _, _, _ => "bad-op"
   | _ => "bad-op"
 
